@@ -440,8 +440,14 @@ func MakeRoute(rng *rand.Rand, class string, t *Topology, ci ConnInst) []string 
 	}
 	switch class {
 	case "subset":
+		if n == 1 { // a single destination has no proper non-empty subset: the full route
+			return perm()
+		}
 		return perm()[:1+rng.Intn(n-1)]
 	case "repeated":
+		if n == 1 {
+			return []string{dests[0], dests[0]}
+		}
 		base := perm()[:1+rng.Intn(n-1)] // the distinct ids used; the rest of the N entries repeat them
 		out := append([]string(nil), base...)
 		for len(out) < n {
